@@ -321,13 +321,17 @@ Section Marlin.
   Definition evals_map (ev : evals) : evals := of_list qkey_cmp ev.
 
   (* MarlinKZG10::batch_check: returns decision, remaining challenge tape, verifier draws *)
-  Definition mbatch_check (vk : MVKey) (cs : list LComm) (qs : list query) (ev : evals)
+  Definition mbatch_check_m (vk : MVKey) (cs : list LComm) (qs : list query) (evm : evals)
              (pfs : list Proof) (chal vtape : list F) : res (bool * list F * nat) :=
-    do r <- combine_groups vk (comm_map cs) (evals_map ev) (group_queries qs) chal;
+    do r <- combine_groups vk (comm_map cs) evm (group_queries qs) chal;
     let '(ccs, zs, vs, rest) := r in
     if negb (Nat.eqb (length pfs) (length zs)) then Panic else
     do b <- KZG10.batch_check (mvk_vk vk) ccs zs vs pfs vtape;
     Ok (fst b, rest, snd b).
+  (* ev: the evaluations as a list; the function is handed the BTreeMap *)
+  Definition mbatch_check (vk : MVKey) (cs : list LComm) (qs : list query) (ev : evals)
+             (pfs : list Proof) (chal vtape : list F) : res (bool * list F * nat) :=
+    mbatch_check_m vk cs qs (evals_map ev) pfs chal vtape.
 
   (* MarlinKZG10::batch_open *)
   Fixpoint open_groups (ck : CKey) (pm : list (N * (LPoly * MRand))) (groups : list (N * (F * list N)))
